@@ -21,16 +21,18 @@ EXTENDS YRotate, Json, IOUtils
 
 Recs == JsonDeserialize(IOEnv.RECORDS_IN)
 
-RECURSIVE Run(_, _, _)
-Run(s, ev, i) ==
+\* chk = FALSE: only "is this event sequence a behaviour of the machine" (used with the deviating designs, whose
+\* behaviours break the property's clauses by construction)
+RECURSIVE Run(_, _, _, _)
+Run(s, ev, i, chk) ==
   IF i > Len(ev) THEN [s |-> s, at |-> 0, why |-> ""]
   ELSE LET n == RStep(s, ev[i]) IN
        IF n.pc = "REJECT" THEN [s |-> s, at |-> i, why |-> "reject"]
-       ELSE IF Failing(n) # "" THEN [s |-> n, at |-> i, why |-> "inv:" \o Failing(n)]
-       ELSE Run(n, ev, i + 1)
+       ELSE IF chk /\ Failing(n) # "" THEN [s |-> n, at |-> i, why |-> "inv:" \o Failing(n)]
+       ELSE Run(n, ev, i + 1, chk)
 
 Verdict(r) ==
-  LET res == Run(RInit(r.files, r.backup), r.events, 1)
+  LET res == Run(RInit(r.files, r.backup), r.events, 1, r.checkinv)
       s == res.s
       fs == FilesOf(s)
       badfile == {i \in 1..Len(fs) : i <= Len(r.views) /\ r.filecheck[i] /\ r.views[i] # View(fs[i].heap, fs[i].bind)}
